@@ -24,6 +24,8 @@ pub struct Relay {
     pub addr: SocketAddr,
     target: Arc<Mutex<SocketAddr>>,
     pub flows: Arc<AtomicU64>,
+    /// generation counter: flows created in an older generation are black-holed (both directions)
+    generation: Arc<AtomicU64>,
     task: tokio::task::JoinHandle<()>,
 }
 
@@ -33,9 +35,10 @@ impl Relay {
         let addr = front.local_addr()?;
         let target = Arc::new(Mutex::new(target));
         let flows = Arc::new(AtomicU64::new(0));
-        let (t2, f2) = (target.clone(), flows.clone());
+        let generation = Arc::new(AtomicU64::new(0));
+        let (t2, f2, g2) = (target.clone(), flows.clone(), generation.clone());
         let task = tokio::spawn(async move {
-            let mut ups: HashMap<SocketAddr, Arc<UdpSocket>> = HashMap::new();
+            let mut ups: HashMap<SocketAddr, (Arc<UdpSocket>, u64)> = HashMap::new();
             let mut buf = vec![0u8; 65536];
             loop {
                 let (n, from) = match front.recv_from(&mut buf).await {
@@ -43,7 +46,12 @@ impl Relay {
                     Err(_) => break,
                 };
                 let up = match ups.get(&from) {
-                    Some(u) => u.clone(),
+                    Some((u, gen)) => {
+                        if *gen < g2.load(Ordering::SeqCst) {
+                            continue; // black-holed flow
+                        }
+                        u.clone()
+                    }
                     None => {
                         // a new client endpoint = a new connection attempt: bind it to the current target
                         let u = match UdpSocket::bind("127.0.0.1:0").await {
@@ -55,11 +63,15 @@ impl Relay {
                             continue;
                         }
                         f2.fetch_add(1, Ordering::SeqCst);
-                        ups.insert(from, u.clone());
-                        let (u2, front2) = (u.clone(), front.clone());
+                        let my_gen = g2.load(Ordering::SeqCst);
+                        ups.insert(from, (u.clone(), my_gen));
+                        let (u2, front2, g3) = (u.clone(), front.clone(), g2.clone());
                         tokio::spawn(async move {
                             let mut b = vec![0u8; 65536];
                             while let Ok(n) = u2.recv(&mut b).await {
+                                if my_gen < g3.load(Ordering::SeqCst) {
+                                    continue; // black-holed flow
+                                }
                                 if front2.send_to(&b[..n], from).await.is_err() {
                                     break;
                                 }
@@ -71,7 +83,12 @@ impl Relay {
                 let _ = up.send(&buf[..n]).await;
             }
         });
-        Ok(Relay { addr, target, flows, task })
+        Ok(Relay { addr, target, flows, generation, task })
+    }
+    /// silently drop every packet of the connections that exist now (in both directions); connections
+    /// opened afterwards pass
+    pub fn blackhole_existing(&self) {
+        self.generation.fetch_add(1, Ordering::SeqCst);
     }
     pub fn retarget(&self, t: SocketAddr) {
         *self.target.lock().unwrap() = t;
@@ -814,6 +831,181 @@ async fn reregistration(role: usize, certs: &Certs, outages: usize) -> std::resu
     Ok(units)
 }
 
+
+/// Silent network loss: the relay black-holes the packets of the existing connection; the client has to notice
+/// through QUIC's idle timeout and then re-establish the stream through the (reachable) server.
+async fn blackhole_outage(role: usize, certs: &Certs, id: u64) -> std::result::Result<u64, V> {
+    let inc = |e: String| V("INCONCLUSIVE".into(), e);
+    let server = start_server(certs).map_err(|e| inc(e.to_string()))?;
+    let relay = Relay::start(server.addr).await.map_err(|e| inc(e.to_string()))?;
+    let topic = format!("/c12hole/r{}x{}", role, id);
+    let bo = BackoffStrategy::constant().with_max_attempts(3).with_step(Duration::from_millis(20));
+    let via_relay = lib_client(&relay.addr.to_string(), certs, Some(bo)).await.map_err(|e| inc(format!("connect through relay: {e}")))?;
+    let direct = lib_client(&server.addr.to_string(), certs, None).await.map_err(|e| inc(e.to_string()))?;
+    let limit = Duration::from_secs(75);
+    let r = match role {
+        0 => {
+            let mut sub = direct.subscriber(&topic).with_decoder(StringCodec).open().await.map_err(|e| inc(e.to_string()))?;
+            let mut p = via_relay.publisher(&topic).with_encoder(StringCodec).open().await.map_err(|e| inc(e.to_string()))?;
+            p.send("before".to_string()).await.map_err(|e| inc(e.to_string()))?;
+            let _ = tokio::time::timeout(Duration::from_secs(5), sub.next()).await;
+            relay.blackhole_existing();
+            let t0 = Instant::now();
+            let mut n = 0u64;
+            loop {
+                n += 1;
+                match tokio::time::timeout(Duration::from_secs(60), p.send(format!("after-{}", n))).await {
+                    Ok(Ok(())) => {}
+                    Ok(Err(e)) => break Err(V("publisher/error-after-silent-loss".into(), format!("send failed with {:?} after the network silently dropped the connection (server reachable)", e.to_string()))),
+                    Err(_) => break Err(V("publisher/hangs-after-silent-loss".into(), "send() did not return within 60 s".into())),
+                }
+                match tokio::time::timeout(Duration::from_millis(300), sub.next()).await {
+                    Ok(Some(Ok(s))) if s.starts_with("after-") => break Ok(n),
+                    _ => {}
+                }
+                if t0.elapsed() > limit {
+                    break Err(V("publisher/not-recovered-after-silent-loss".into(), format!("{} items published over {:?} after the silent loss, none reached the subscriber", n, limit)));
+                }
+                tokio::time::sleep(Duration::from_millis(200)).await;
+            }
+        }
+        1 => {
+            let mut sub = via_relay.subscriber(&topic).with_decoder(StringCodec).open().await.map_err(|e| inc(e.to_string()))?;
+            let mut p = direct.publisher(&topic).with_encoder(StringCodec).open().await.map_err(|e| inc(e.to_string()))?;
+            let feeder = tokio::spawn(async move {
+                let mut n = 0u64;
+                loop {
+                    n += 1;
+                    if p.send(format!("{}", n)).await.is_err() {
+                        break;
+                    }
+                    tokio::time::sleep(Duration::from_millis(20)).await;
+                }
+            });
+            let first = tokio::time::timeout(Duration::from_secs(10), sub.next()).await;
+            if !matches!(first, Ok(Some(Ok(_)))) {
+                feeder.abort();
+                return Err(inc("precondition not reached: nothing arrived before the loss".into()));
+            }
+            relay.blackhole_existing();
+            // drain what was already delivered locally, then wait for new items
+            let t0 = Instant::now();
+            let mut last: Option<u64> = None;
+            let mut fresh = 0u64;
+            let res = loop {
+                match tokio::time::timeout(Duration::from_secs(60), sub.next()).await {
+                    Ok(Some(Ok(s))) => {
+                        let n: u64 = s.parse().unwrap_or(0);
+                        if t0.elapsed() > Duration::from_secs(3) && last.map_or(true, |l| n > l) {
+                            fresh += 1;
+                            if fresh >= 10 {
+                                break Ok(fresh);
+                            }
+                        }
+                        last = Some(n);
+                    }
+                    Ok(Some(Err(e))) => break Err(V("subscriber/error-after-silent-loss".into(), format!("yielded {:?}", e.to_string()))),
+                    Ok(None) => break Err(V("subscriber/ended-after-silent-loss".into(), "stream ended".into())),
+                    Err(_) => break Err(V("subscriber/hangs-after-silent-loss".into(), "nothing yielded for 60 s while a publisher kept publishing".into())),
+                }
+                if t0.elapsed() > limit {
+                    break Err(V("subscriber/not-recovered-after-silent-loss".into(), format!("no fresh items within {:?}", limit)));
+                }
+            };
+            feeder.abort();
+            res
+        }
+        2 => {
+            let (_rc, echo) = raw_echo(server.addr, certs, &topic).await.map_err(|e| inc(e.to_string()))?;
+            let mut rq = via_relay.requestor(&topic).with_request_encoder(StringCodec).with_reply_decoder(StringCodec).with_request_timeout(1500u64).map_err(|e| inc(e.to_string()))?.open().await.map_err(|e| inc(e.to_string()))?;
+            let mut est = false;
+            for _ in 0..20 {
+                if rq.request("before".to_string()).await.is_ok() {
+                    est = true;
+                    break;
+                }
+            }
+            if !est {
+                return Err(inc("precondition not reached".into()));
+            }
+            relay.blackhole_existing();
+            let t0 = Instant::now();
+            let mut n = 0u64;
+            let res = loop {
+                n += 1;
+                let p = format!("after-{}", n);
+                match tokio::time::timeout(Duration::from_secs(60), rq.request(p.clone())).await {
+                    Ok(Ok(v)) if v == format!("re:{}", p) => break Ok(n),
+                    Ok(Ok(v)) => break Err(V("requestor/wrong-reply-after-silent-loss".into(), format!("{:?} returned {:?}", p, v))),
+                    Ok(Err(e)) if is_too_many(&e) => break Err(V("requestor/gave-up-after-silent-loss".into(), "too-many-retries although the server is reachable".into())),
+                    Ok(Err(_)) => {}
+                    Err(_) => break Err(V("requestor/hangs-after-silent-loss".into(), "request() did not return within 60 s".into())),
+                }
+                if t0.elapsed() > limit {
+                    break Err(V("requestor/not-recovered-after-silent-loss".into(), format!("{} calls over {:?}, none answered", n, limit)));
+                }
+            };
+            echo.abort();
+            res
+        }
+        _ => {
+            let mut rp = via_relay
+                .replier(&topic)
+                .with_request_decoder(StringCodec)
+                .with_reply_encoder(StringCodec)
+                .with_handler(|req: String| async move { Ok::<String, std::convert::Infallible>(format!("re:{}", req)) })
+                .open()
+                .await
+                .map_err(|e| inc(e.to_string()))?;
+            let listen = tokio::spawn(async move { rp.listen().await });
+            let rc = raw_connect(server.addr, certs).await.map_err(|e| inc(e.to_string()))?;
+            let (mut rq, r) = rc.open(reg(3, &topic), Duration::from_secs(8)).await.map_err(|e| inc(e.to_string()))?;
+            if r != Some(Frame::Ok) {
+                return Err(inc(format!("raw requestor answered {:?}", r)));
+            }
+            let mut ask = |k: u64| {
+                let mut h = HashMap::new();
+                h.insert("req_id".to_string(), k.to_string());
+                Frame::Message(MessagePayload { headers: Some(h), message: Bytes::from(format!("q{}", k)) })
+            };
+            let mut est = false;
+            for k in 0..40 {
+                let _ = rq.send(ask(k)).await;
+                if let Ok(Some(Ok(Frame::Message(_)))) = tokio::time::timeout(Duration::from_millis(300), rq.next()).await {
+                    est = true;
+                    break;
+                }
+            }
+            if !est {
+                listen.abort();
+                return Err(inc("precondition not reached: replier never answered".into()));
+            }
+            relay.blackhole_existing();
+            let t0 = Instant::now();
+            let mut k = 1000u64;
+            let res = loop {
+                k += 1;
+                let _ = rq.send(ask(k)).await;
+                match tokio::time::timeout(Duration::from_millis(500), rq.next()).await {
+                    Ok(Some(Ok(Frame::Message(m)))) if m.message.starts_with(format!("re:q{}", k).as_bytes()) => break Ok(k - 1000),
+                    _ => {}
+                }
+                if listen.is_finished() {
+                    break Err(V("replier/gave-up-after-silent-loss".into(), "listen() returned although the server is reachable".into()));
+                }
+                if t0.elapsed() > limit {
+                    break Err(V("replier/not-recovered-after-silent-loss".into(), format!("no request answered within {:?} after the silent loss", limit)));
+                }
+            };
+            listen.abort();
+            res
+        }
+    };
+    relay.stop();
+    server.stop();
+    r
+}
+
 // ---------------------------------------------------------------------------------------
 // exhaustion and unrecoverable errors (relay)
 // ---------------------------------------------------------------------------------------
@@ -1039,6 +1231,18 @@ pub fn run(rep: &mut StageReport, tier: &str, _seed: u64) {
                     Err(_) => Err(V("INCONCLUSIVE".into(), "watchdog: exhaustion scenario did not finish in 120 s".into())),
                 };
                 out.push((format!("{}/{}", if unrec { "unrecoverable" } else { "exhaustion" }, role_name), cfg, r));
+            }
+        }
+        // silent network loss detected through the idle timeout (thorough tier: ≈ 15–30 s per role)
+        if thorough {
+            for role in 0..4usize {
+                let role_name = ["publisher", "subscriber", "requestor", "replier"][role];
+                let cfg = json!({"role": role_name, "fault": "UDP relay black-holes the existing connection in both directions; loss is detected by QUIC's idle timeout"});
+                let r = match tokio::time::timeout(Duration::from_secs(200), blackhole_outage(role, &certs.0, role as u64)).await {
+                    Ok(r) => r,
+                    Err(_) => Err(V("INCONCLUSIVE".into(), "watchdog: black-hole scenario did not finish in 200 s".into())),
+                };
+                out.push((format!("silent-loss/{}", role_name), cfg, r));
             }
         }
         // re-registration with the same settings after a remote-initiated close (protocol-level fake server)
